@@ -227,3 +227,23 @@ M("c20-sample-axes", "C20", PL, "            sample[:, x_idx],\n            samp
 M("c20-ext", "C20", C, "    if not ext:\n        file_path += \".txt\"", "    if ext:\n        file_path += \".txt\"", rules=["C20.save"])
 M("c20-dc-swap", "C20", PL, "            design_conditions = calculate_design_conditions(\n                contour, swap_axis=swap_axis\n            )", "            design_conditions = calculate_design_conditions(contour)", rules=["C20.contour"])
 M("c20-hist-dist", "C20", PL, "                dist = dist_per_interval[interval_idx]", "                dist = dist_per_interval[0]", rules=["C20.others"])
+
+# ------------------------------------------------------------------ rules that had no seeded break yet
+M("c01-result-other", "C01", C, "        self.sphere_points = sphere_points\n        self.coordinates = coordinates", "        self.sphere_points = sphere_points\n        self.coordinates = p", rules=["C01.result"])
+M("c03-ctor-step", "C03", C, "        self.n = n\n        self.deg_step = deg_step\n        self.sample = sample\n        super().__init__()\n\n    def _compute(self):\n        sample = self.sample\n        n = self.n\n        deg_step = self.deg_step\n        alpha = self.alpha\n", "        self.n = n\n        self.deg_step = deg_step * 2\n        self.sample = sample\n        super().__init__()\n\n    def _compute(self):\n        sample = self.sample\n        n = self.n\n        deg_step = self.deg_step\n        alpha = self.alpha\n", rules=["C03.ctor"])
+M("c03-step", "C03", C, "            0.5 * np.pi + 2 * rad_step, -1.5 * np.pi + rad_step, -1 * rad_step", "            0.5 * np.pi + 2 * rad_step, -1.5 * np.pi + rad_step, -2 * rad_step", rules=["C03.step"])
+M("c04-n", "C04", C, "        if n is None:\n            n = int(100 / alpha)\n        self.n = n\n        self.deg_step = deg_step\n        self.sample = sample\n        self.allowed_error = allowed_error\n        super().__init__()", "        if n is None:\n            n = int(10 / alpha)\n        self.n = n\n        self.deg_step = deg_step\n        self.sample = sample\n        self.allowed_error = allowed_error\n        super().__init__()", rules=["C04.n"])
+M("c04-ray-deg", "C04", C, "            unity_vector[0] = np.cos(theta / 180 * np.pi)\n            unity_vector[1] = np.sin(theta / 180 * np.pi)\n            max_distance = np.sqrt(x_marginal**2 + y_marginal**2)\n            rel_dist = 0.2\n            rel_step_size = 0.1\n            current_pe = 0  # pe = probability of exceedance.\n            nr_iterations = 0\n            while np.abs((current_pe - alpha)) / alpha > allowed_error:\n                abs_dist = rel_dist * max_distance\n                current_vector = unity_vector * abs_dist\n                both_greater", "            unity_vector[0] = np.cos(theta)\n            unity_vector[1] = np.sin(theta)\n            max_distance = np.sqrt(x_marginal**2 + y_marginal**2)\n            rel_dist = 0.2\n            rel_step_size = 0.1\n            current_pe = 0  # pe = probability of exceedance.\n            nr_iterations = 0\n            while np.abs((current_pe - alpha)) / alpha > allowed_error:\n                abs_dist = rel_dist * max_distance\n                current_vector = unity_vector * abs_dist\n                both_greater", rules=["C04.ray"])
+M("c05-generic-kw", "C05", D, "            args_with_default[idx] = arg\n", "            args_with_default[idx - 1] = arg\n", rules=["C05.generic"])
+M("c05-pair", "C05", D, "        if (mu_norm is None) != (sigma_norm is None):\n            raise RuntimeError(", "        if (mu_norm is None) and (sigma_norm is None) and False:\n            raise RuntimeError(", rules=["C05.pair"])
+M("c08-keywords", "C08", D, "    def pdf(self, x, kappa=None, mu=None):", "    def pdf(self, x, kappa=None, loc=None):\n        mu = loc", rules=["C08.keywords"])
+M("c09-defaults", "C09", J, '        default_fit_desc = {"method": "mle", "weights": None}', '        default_fit_desc = {"method": "lsq", "weights": None}', rules=["C09.defaults"])
+M("c10-bounds", "C10", I, "        interval_boundaries = list(zip(interval_edges[:-1], interval_edges[1:]))\n\n        if isinstance(self.reference, str):\n            if self.reference.lower() == \"center\":\n                pass  # interval_references are", "        interval_boundaries = list(zip(interval_edges[:-1], interval_edges[:-1] + width))\n\n        if isinstance(self.reference, str):\n            if self.reference.lower() == \"center\":\n                pass  # interval_references are", rules=["C10.bounds"])
+M("c11-generic-fkw", "C11", D, "                setattr(self, key, arg)\n                setattr(self, key[2:], arg)", "                setattr(self, key, arg)", rules=["C11.generic"])
+M("c15-shape-no-sorter", "C15", C, "                self.coordinates = np.array(\n                    sort_points_to_form_continuous_line(\n                        *coordinates, search_for_optimal_start=True\n                    )\n                ).T", "                self.coordinates = np.array(coordinates)", rules=["C15.shape"])
+M("c15-twin-gbs", "C15", C, "structure = np.ones(tuple([3] * n_dim), dtype=bool)", "structure = ndi.generate_binary_structure(n_dim, n_dim)", expect="pass")
+# ------------------------------------------------------------------ repaired copies of the recorded findings
+M("repair-D9", "C14", FIT, "        # constraints=constraints,\n        bounds=bounds,", "        constraints=constraints,\n        bounds=bounds,", expect="repaired", rules=["C14.constraints"], what="constraints handed to minimize")
+M("repair-D15", "C17", U, "        assert len(x) <= 2\n        assert len(y) <= 2\n", "", expect="repaired", rules=["C17.all"], what="asserts on the number of crossings removed")
+M("repair-D10", "C15", U, "    order = list(nx.dfs_preorder_nodes(T, 0))\n", "    order = list(nx.dfs_preorder_nodes(T, 0))\n    if len(order) != len(points):\n        raise RuntimeError(\"points do not form one continuous line\")\n", expect="repaired", rules=["C15.perm"], what="length guard on the order")
+M("repair-D11", "C03", C, "        angles = np.arange(\n            0.5 * np.pi + 2 * rad_step, -1.5 * np.pi + rad_step, -1 * rad_step\n        )", "        n_angles = int(round(360 / deg_step)) + 1\n        angles = 0.5 * np.pi + 2 * rad_step - rad_step * np.arange(n_angles)", expect="repaired", rules=["C03.grid"], what="direction grid enumerated by integer count")
